@@ -46,6 +46,32 @@ func corpus() []scenario {
 			{Op: OpNew, A: 0, V2: true}, {Op: OpApp, A: 0, Sid: 1, T: 100, V: fh(2)}, {Op: OpApp, A: 0, Sid: 1, T: 50, V: fl(1)},
 			{Op: OpApp, A: 0, Sid: 1, T: 110, V: stale()}, {Op: OpApp, A: 0, Sid: 1, T: 120, V: fh(3)}, {Op: OpCommit, A: 0},
 		}},
+		// v2 RejectOutOfOrder must be forwarded when a float staleness marker is converted at append
+		// (typesInBatch says float histogram / histogram): below the series max, inside the window
+		{"v2-reject-forwarded-stale-to-fhist", Cfg{1000, 500, 32}, []Op{
+			{Op: OpNew, A: 0, V2: true}, {Op: OpApp, A: 0, Sid: 1, T: 1000, V: fh(1)}, {Op: OpCommit, A: 0},
+			{Op: OpNew, A: 1, V2: true}, {Op: OpApp, A: 1, Flag: true, Sid: 1, T: 1010, V: fh(2)},
+			{Op: OpApp, A: 1, Flag: true, Sid: 1, T: 900, V: stale()}, {Op: OpApp, A: 1, Sid: 1, T: 910, V: stale()},
+			{Op: OpApp, A: 1, Flag: true, Sid: 1, T: 400, V: stale()}, {Op: OpApp, A: 1, Flag: true, Sid: 1, T: 1020, V: stale()}, {Op: OpCommit, A: 1},
+		}},
+		{"v2-reject-forwarded-stale-to-hist", Cfg{1000, 500, 32}, []Op{
+			{Op: OpNew, A: 0, V2: true}, {Op: OpApp, A: 0, Sid: 1, T: 1000, V: hi(1)}, {Op: OpCommit, A: 0},
+			{Op: OpNew, A: 1, V2: true}, {Op: OpApp, A: 1, Flag: true, Sid: 1, T: 1010, V: hi(2)},
+			{Op: OpApp, A: 1, Flag: true, Sid: 1, T: 900, V: stale()}, {Op: OpApp, A: 1, Sid: 1, T: 910, V: stale()},
+			{Op: OpApp, A: 1, Flag: true, Sid: 1, T: 400, V: stale()}, {Op: OpApp, A: 1, Flag: true, Sid: 1, T: 1020, V: stale()}, {Op: OpCommit, A: 1},
+		}},
+		// ... and when the marker stays a float at append (typed at commit by the series' last sample)
+		{"v2-reject-stale-on-committed-fhist-series", Cfg{1000, 500, 32}, []Op{
+			{Op: OpNew, A: 0, V2: true}, {Op: OpApp, A: 0, Sid: 1, T: 1000, V: fh(1)}, {Op: OpApp, A: 0, Sid: 2, T: 1000, V: hi(1)}, {Op: OpCommit, A: 0},
+			{Op: OpNew, A: 1, V2: true}, {Op: OpApp, A: 1, Flag: true, Sid: 1, T: 900, V: stale()}, {Op: OpApp, A: 1, Sid: 1, T: 910, V: stale()},
+			{Op: OpApp, A: 1, Flag: true, Sid: 2, T: 900, V: stale()}, {Op: OpApp, A: 1, Sid: 2, T: 910, V: stale()},
+			{Op: OpApp, A: 1, Flag: true, Sid: 1, T: 1001, V: stale()}, {Op: OpCommit, A: 1},
+		}},
+		{"v1-discard-not-applied-to-converted-stale", Cfg{1000, 500, 32}, []Op{
+			{Op: OpNew, A: 0}, {Op: OpApp, A: 0, Sid: 1, T: 1000, V: fh(1)}, {Op: OpCommit, A: 0},
+			{Op: OpNew, A: 1}, {Op: OpSetOpt, A: 1, Flag: true}, {Op: OpApp, A: 1, Sid: 1, T: 1010, V: fh(2)},
+			{Op: OpApp, A: 1, Sid: 1, T: 900, V: stale()}, {Op: OpApp, A: 1, Sid: 2, T: 900, V: stale()}, {Op: OpCommit, A: 1},
+		}},
 		{"clash-inorder-ooo", Cfg{1000, 5000, 32}, []Op{
 			{Op: OpNew, A: 0}, {Op: OpApp, A: 0, Sid: 1, T: 100, V: fl(1)}, {Op: OpApp, A: 0, Sid: 2, T: 2000, V: fl(1)}, {Op: OpCommit, A: 0},
 			{Op: OpNew, A: 1}, {Op: OpApp, A: 1, Sid: 1, T: 100, V: fl(2)}, {Op: OpApp, A: 1, Sid: 1, T: 100, V: fl(3)}, {Op: OpApp, A: 1, Sid: 1, T: 50, V: fl(3)}, {Op: OpCommit, A: 1},
